@@ -1186,9 +1186,22 @@ static void lawCase(Rng& r, Ctx& c, int which)
     case 9:
     {
       int a = r.irange(-5, 5), b = a + r.irange(1, 30);
+      // every other visit of this slot: sampleInteger ("Returns an integer sampled uniformly within the interval [mini, maxi]",
+      // both bounds included), with a negative lower bound
+      bool viaSample = ((c.icase / 16) / 3) % 2 == 0;
+      if (viaSample)
+      {
+        if (a >= 0) a = -a - 1;
+        L.name = fmt("sampleInteger(%d,%d)", a, b);
+        L.key  = "sampleInteger";
+        L.draw = [a, b]() { return (double)sampleInteger(a, b); };
+      }
+      else
+      {
       L.name = fmt("law_int_uniform(%d,%d)", a, b);
       L.key  = "law_int_uniform";
       L.draw = [a, b]() { return (double)law_int_uniform(a, b); };
+      }
       int cnt = b - a + 1;
       for (int m = 1; m <= 8; m++)
       {
